@@ -94,3 +94,34 @@ func VerifC13UncoveredFieldsPinned() {
 		verifAssertKnown(b1.BasePlasma == b2.BasePlasma && b1.TotalPlasma == b2.TotalPlasma, "stored plasma fields of a contract block are pinned by verification", true, "C13-F9b")
 	}
 }
+
+// VerifC13MomentumHashCoversFields: a momentum's hash commits to version, chain, predecessor, height, timestamp, data,
+// the changes hash and the content - including the ORDER of the content headers (sha3 collision-free; 2 headers, data <= 1 byte).
+func VerifC13MomentumHashCoversFields() {
+	mk := func(tag string) *nom.Momentum {
+		m := &nom.Momentum{}
+		m.Version = verifNondetU64(tag + ".Version")
+		m.ChainIdentifier = verifNondetU64(tag + ".ChainIdentifier")
+		m.PreviousHash = c03Hash(tag + ".PreviousHash")
+		m.Height = verifNondetU64(tag + ".Height")
+		m.TimestampUnix = verifNondetU64(tag + ".TimestampUnix")
+		m.Data = verifNondetBytes(tag+".Data", 1)
+		m.ChangesHash = c03Hash(tag + ".ChangesHash")
+		for i := 0; i < 2; i++ {
+			h := &types.AccountHeader{Address: c03Addr(tag + ".c.Address"), HashHeight: types.HashHeight{Hash: c03Hash(tag + ".c.Hash"), Height: verifNondetU64(tag + ".c.Height")}}
+			m.Content = append(m.Content, h)
+		}
+		return m
+	}
+	m1, m2 := mk("m1"), mk("m2")
+	verifAssume(m1.ComputeHash() == m2.ComputeHash(), "equal computed hashes")
+	verifReach("equal hashes", true)
+	verifAssert(m1.Version == m2.Version && m1.ChainIdentifier == m2.ChainIdentifier, "hash pins version / chain id")
+	verifAssert(m1.PreviousHash == m2.PreviousHash && m1.Height == m2.Height, "hash pins the position in the chain")
+	verifAssert(m1.TimestampUnix == m2.TimestampUnix, "hash pins the timestamp")
+	verifAssert(bytes.Equal(m1.Data, m2.Data), "hash pins the data")
+	verifAssert(m1.ChangesHash == m2.ChangesHash, "hash pins the changes hash")
+	for i := 0; i < 2; i++ {
+		verifAssert(*m1.Content[i] == *m2.Content[i], "hash pins the content, header by header in order")
+	}
+}
